@@ -113,6 +113,17 @@ pub fn run_prop(ctx: &Ctx, sink: &mut Sink) {
         std::os::unix::fs::symlink("t", dir.join("lt")).unwrap();
         let abs = t.to_str().unwrap().to_string();
         let root_cands: Vec<String> = vec!["t".into(), "t/".into(), "./t".into(), "t//".into(), ".".into(), "./".into(), "t/d1".into(), "t/d1/".into(), "lt".into(), "lt/".into(), abs.clone(), format!("{abs}/"), "t/f0".into(), "t/./d1".into(), "t/d1/..".into()];
+        // the last component of a starting point spelled with `..`: the same under every follow mode
+        for (c, flag, f) in [("t/d1/..", "P", "[%f]\\n"), ("t/d1/..", "L", "[%f]\\n"), ("t/d1/sub/..", "P", "%f|%d\\n"), ("t/d1/sub/..", "H", "%f|%d\\n"), ("..", "P", "<%f>\\n")] {
+            let toks = vec!["maxdepth:1".to_string(), "sorted".to_string(), format!("printf:{}", hex(f.as_bytes()))];
+            let roots = vec![(c.as_bytes().to_vec(), observe_root(c.as_bytes(), &dir.join(c)))];
+            let mut args: Vec<String> = vec![];
+            if flag != "P" { args.push(format!("-{flag}")); }
+            args.extend([c.to_string(), "-maxdepth".into(), "1".into(), "-sorted".into(), "-printf".into(), f.to_string()]);
+            let o = crate::frun::find_inproc(&ctx.tmp.join("stderr-find"), &args, std::time::SystemTime::now(), Some(&dir));
+            let req = format!("find {flag} {} {}", roots[0].1, toks.join(","));
+            sink.push(Case { req, imp: super::frun_common::show(&o), tags: vec!["render", "dotdot-start", "nt"] });
+        }
         for _c in 0..(if ctx.thorough { 40 } else { 24 }) {
             let flag = *rng.pick(&["P", "P", "H", "L"]);
             let f = gen_format(&mut rng, flag == "P");
